@@ -95,6 +95,24 @@ def Dict.insert (H : Bytes → UInt32) (d : Dict) (value : Bytes) (len : Nat) (z
   | (.eint, ht) => (.eint, { ht := ht })
   | (.full, ht) => (.full, { ht := ht })
 
+/-- `dict_insert` after the candidate repair `fixes/F50.diff`: look the string up first (by length); a new string is copied
+(or adopted) *before* it is stored and inserted with `lyht_insert_no_check`, so no record ever points into the caller's
+buffer and a resize never compares records. -/
+def Dict.insertFixed (H : Bytes → UInt32) (d : Dict) (value : Bytes) (len : Nat) (_zc alias : Bool) : DRes × Dict :=
+  let key := value.take len
+  let hash := H key
+  let rec0 : DRec := { str := value, ref := 1, own := alias }
+  match d.ht.find (valEq len) rec0 hash with
+  | some _ =>
+    (.ok key, { ht := onBucket d.ht hash (modFirst (Ht2.hit (valEq len) false rec0 hash) incr) })
+  | none =>
+    match d.ht.insert (valEq len) none false true { str := key, ref := 1, own := true } hash with
+    | (.ok _, ht) => (.ok key, { ht := ht })
+    | (.notfound, ht) => (.notfound, { ht := ht })
+    | (.exist _, ht) => (.eint, { ht := ht })
+    | (.eint, ht) => (.eint, { ht := ht })
+    | (.full, ht) => (.full, { ht := ht })
+
 /-- the record built on the stack for a lookup (`rec.value = value`) -/
 def probe (value : Bytes) (own : Bool) : DRec := { str := value, ref := 0, own := own }
 
